@@ -311,6 +311,30 @@ pub fn run() -> i32 {
         r.guard(t4.evals > 700, "box 4 ran");
         tot.evals += t4.evals; tot.nt += t4.nt; tot.viols.extend(t4.viols); tot.outs.extend(t4.outs);
     }
+    // ---- box 5: a literal with a length modifier INSIDE a structure, as input (`⟨s a:[m] n⟩ > [tone: 7]`) and in a context
+    // (`k > [+voice] / ⟨s a:[m] n⟩ _`): the structure matches the syllable iff the table says the modifier matches the vowel's length
+    {
+        let mods: [(&str, fn(u8) -> bool); 7] = [("+long", |l| l >= 2), ("-long", |l| l == 1), ("+overlong", |l| l == 3), ("-overlong", |l| l <= 2), ("+long, -overlong", |l| l == 2), ("+long, +overlong", |l| l == 3), ("-long, -overlong", |l| l == 1)];
+        let mut t5 = acc();
+        for (m, f) in mods { for form in 0..3u8 { for len in 1..=3u8 { for stress in 0..3u8 { for tone in TONES {
+            let text = match form { 0 => format!("⟨s a:[{}] n⟩ > [tone: 7]", m), 1 => format!("k > [+voice] / ⟨s a:[{}] n⟩ _", m), _ => format!("t > [+voice] / _ ⟨s a:[{}] n⟩", m) };
+            let Out::Ok(Ok(compiled)) = guarded(5_000_000, || av::compile(&[group(&[&text])])) else { t5.viols.push(Viol { key: format!("compile|{}", text), desc: format!("`{}` does not compile", text), case: json!({"rule": text}) }); continue; };
+            let st = St { len, stress, tone };
+            let w = build(&st, 1);
+            let mut e = w.clone();
+            if f(len) { match form { 0 => e[1].tone = 7, 1 => e[2].segs[0] = model::set_feat(e[2].segs[0], 11, true), _ => e[0].segs[0] = model::set_feat(e[0].segs[0], 11, true) } }
+            t5.evals += 1;
+            match run_one(&compiled, &w, &text) {
+                Out::Ok(Ok(g)) if g == e => { if f(len) { t5.nt += 1; } t5.outs.insert(hash64(&g)); }
+                Out::Ok(Ok(g)) => t5.viols.push(Viol { key: format!("struct-literal-length|{}|len{}", text, len), desc: format!("`{}` on /{}/: the vowel has length {}, so the structure {}; expected /{}/, got /{}/", text, show_cw(&w), len, if f(len) { "matches" } else { "does not match" }, show_cw(&e), show_cw(&g)), case: json!({"env": true, "rule": text, "word": cw_json(&w), "expected": cw_json(&e)}) }),
+                Out::Ok(Err(er)) => t5.viols.push(Viol { key: format!("struct-literal-length|{}|error", text), desc: format!("`{}` on /{}/: error {}", text, show_cw(&w), er), case: json!({"env": true, "rule": text, "word": cw_json(&w), "expected": cw_json(&e)}) }),
+                o => t5.viols.push(Viol { key: format!("struct-literal-length|crash|{}", text), desc: o.crash_desc().unwrap(), case: json!({"env": true, "rule": text, "word": cw_json(&w), "expected": cw_json(&e)}) }),
+            }
+        } } } } }
+        r.boxes.push(json!({"box": "a literal with a length modifier inside a structure (input, context before, context after) x 7 modifiers x 36 states", "cases": t5.evals, "matched": t5.nt}));
+        r.guard(t5.nt > 200, "box 5: more than 200 matching cases");
+        tot.evals += t5.evals; tot.nt += t5.nt; tot.viols.extend(t5.viols); tot.outs.extend(t5.outs);
+    }
     // ---- box 3: two neighbouring targets in one rule, the first output changing the length of its target (so that the second target moves), written
     // as a matrix, as the literal, and through a variable: `V=1 n > 1:[-long] [+long]` on /t3.s<a-run>n.k/ — each target ends up as the table says
     let first_outs: [(&str, &str, u8); 9] = [("V", "[-long]", 2), ("V", "[+long]", 1), ("V", "[+overlong]", 3), ("V", "[-overlong]", 4), ("V", "a", 2), ("V", "a:[+long]", 5), ("V=1", "1:[-long]", 2), ("V=1", "1:[+long]", 1), ("V=1", "1:[-overlong]", 4)];
